@@ -6,7 +6,7 @@ import random
 import gen
 import steps as S
 from common import Case, b, opt
-from prosemirror.model import Node
+from prosemirror.model import Fragment, Node, Slice
 from prosemirror.transform import (AddMarkStep, RemoveMarkStep, ReplaceAroundStep, ReplaceStep, Transform)
 from prosemirror.transform.transform import TransformError
 
@@ -199,6 +199,48 @@ def generate(rng: random.Random, tier: str):
                     yield commute_case(fam, doc, sb, sa, "inside-gap")
 
 
+    # a wrap in TWO wrappers (bullet_list > list_item: the step's map has two ranges of new size 2) followed closely
+    # by an edit just behind the wrapped range - the window in which the second range of the map decides where the
+    # other step lands; and node-level steps (attribute / node mark) on the node right behind it
+    from prosemirror.transform import AttrStep, AddNodeMarkStep, find_wrapping
+    for fam in ("list", "blockmarks"):
+        g, docs = S.family_docs(rng, fam, 4 if quick else 40)
+        sc = gen.family(fam)
+        for doc in docs:
+            for _ in range(10 if quick else 40):
+                ps = S.boundary_positions(doc)
+                a, c = sorted((rng.choice(ps), rng.choice(ps)))
+                try:
+                    rg = doc.resolve(a).block_range(doc.resolve(c))
+                    wr = find_wrapping(rg, sc.nodes[rng.choice(["bullet_list", "ordered_list", "blockquote"])]) if rg else None
+                except Exception:  # noqa: BLE001
+                    continue
+                if not wr:
+                    continue
+                tr = Transform(doc)
+                try:
+                    tr.wrap(rg, wr)
+                except Exception:  # noqa: BLE001
+                    continue
+                sa = tr.steps[0]
+                end = sa.to
+                n = doc.content.size
+                cands = []
+                for p in range(end + 1, min(n, end + 4) + 1):
+                    cands.append(ReplaceStep(p, p, Slice(Fragment.from_(sc.text("q")), 0, 0)))
+                    try:
+                        nd = doc.node_at(p)
+                    except Exception:  # noqa: BLE001
+                        nd = None
+                    if nd is not None and not nd.is_text:
+                        if "level" in nd.type.attrs:
+                            cands.append(AttrStep(p, "level", 2))
+                        cands.append(AddNodeMarkStep(p, S.rand_mark(rng, sc)))
+                for sb in cands:
+                    if rng.random() < 0.6 and parts_separated(sa, sb):
+                        yield commute_case(fam, doc, sa, sb, "behind-double-wrap")
+
+
 def rebuild(desc):
     sc = gen.family(desc["family"])
     doc = Node.from_json(sc, desc["doc"])
@@ -279,7 +321,7 @@ def classify(case):
     ab, ba = d["ab"], d["ba"]
     # both orders are refused with the same content error: the two edits are individually fine but together
     # violate a count constraint of a common ancestor (no divergence: neither order yields a document)
-    if sa["type"] in replacey and sb["type"] in replacey and ab[0] == "fail" and ba[0] == "fail" \
+    if sa["type"] in replacey and sb["type"] in replacey and ab and ba and ab[0] == "fail" and ba[0] == "fail" \
             and ab[1] == ba[1] and str(ab[1]).startswith("Invalid content for node"):
         return "C17-both-orders-refused"
     # an edit inside the gap of a replace-around step whose closed wrapper is not validated against the gap
